@@ -56,6 +56,22 @@ var c08IllTyped = []struct{ name, patch, stmt string }{
 	{"stmt-dots-plus-only", "@@\n@@\n-foo()\n+{\n+  ...\n+}\n", "foo()"},
 	{"two-metavars-same-name", "@@\nvar x expression\nvar x identifier\n@@\n-foo(x)\n+bar(x)\n", "foo(1)"},
 	{"undeclared-kind", "@@\nvar x thing\n@@\n-foo(x)\n+bar(x)\n", "foo(1)"},
+	{"change-name-starting-with-digit", "@@ 9lives @@\n@@\n-foo(1)\n+bar(1)\n", "foo(1)"},
+	{"change-name-with-space", "@@ two words @@\n@@\n-foo(1)\n+bar(1)\n", "foo(1)"},
+	{"change-name-with-symbols", "@@ a-b.c! @@\n@@\n-foo(1)\n+bar(1)\n", "foo(1)"},
+	{"change-name-unterminated", "@@ name\n@@\n-foo(1)\n+bar(1)\n", "foo(1)"},
+	{"change-name-empty-quotes", "@@ \"\" @@\n@@\n-foo(1)\n+bar(1)\n", "foo(1)"},
+	{"change-name-unicode", "@@ имя_变更 @@\n@@\n-foo(1)\n+bar(1)\n", "foo(1)"},
+	{"three-at-signs", "@@@\n@@\n-foo(1)\n+bar(1)\n", "foo(1)"},
+	{"meta-var-without-type", "@@\nvar x\n@@\n-foo(x)\n+bar(x)\n", "foo(1)"},
+	{"meta-var-trailing-comma", "@@\nvar x, expression\n@@\n-foo(x)\n+bar(x)\n", "foo(1)"},
+	{"meta-not-var", "@@\nconst x expression\n@@\n-foo(x)\n+bar(x)\n", "foo(1)"},
+	{"only-header", "@@\n@@\n", "foo(1)"},
+	{"header-then-eof", "@@\n", "foo(1)"},
+	{"context-only", "@@\n@@\n foo(1)\n", "foo(1)"},
+	{"minus-only-lines-with-tabs", "@@\n@@\n-\tfoo(1)\n+\tbar(1)\n", "foo(1)"},
+	{"crlf-patch", "@@\r\nvar x expression\r\n@@\r\n-foo(x)\r\n+bar(x)\r\n", "foo(1)"},
+	{"bom-patch", "\xef\xbb\xbf@@\n@@\n-foo(1)\n+bar(1)\n", "foo(1)"},
 	{"empty-minus", "@@\n@@\n+bar()\n", "foo(1)"},
 	{"empty-plus", "@@\n@@\n-foo(1)\n", "foo(1)"},
 	{"func-header-only", "@@\n@@\n-func f(\n", "foo(1)"},
